@@ -31,7 +31,7 @@ class Finding:
 
     @property
     def key(self):
-        return '%s/%s/%s/%s' % (self.prop, self.rule, self.fn, self.instance)
+        return ('%s/%s/%s/%s' % (self.prop, self.rule, self.fn, self.instance)).replace(' ', '_')
 
 
 class Ctx:
